@@ -59,6 +59,15 @@ def _run_real(sp, d, real_solve=True, solve_timeout_s=150):
     try:
         with warnings.catch_warnings():
             warnings.simplefilter("ignore")
+            if d.get("prior") is not None:
+                # history: the module solved another instance (same board size) earlier in this process
+                keep = stub[0]
+                stub[0] = True
+                try:
+                    sp.call(mod, d["prior"])
+                finally:
+                    stub[0] = keep
+                del made[:]
             ret = sp.call(mod, d)
     finally:
         mod.Solver = saved
@@ -158,7 +167,7 @@ def decide(d, timeout_s):
 
 def _worker(args):
     d, tmo = args
-    return decide(d, tmo)
+    return query.isolated(decide, d, tmo)
 
 
 def key_of(d, kind):
@@ -176,6 +185,26 @@ def run(tier, only=None):
         for d in ds:
             d["puzzle"] = sp.module
             d["name"] = sp.name_of(d)
+        # histories: the same instance after the module solved ANOTHER instance of the same board size in this process
+        hist = []
+        by_shape = {}
+        for d in ds:
+            by_shape.setdefault(S.shape_key(d), []).append(d)
+        rr = random.Random(rng.random())
+        for key, group in sorted(by_shape.items(), key=lambda kv: str(kv[0])):
+            if len(group) < 2:
+                continue
+            for _ in range(2 if tier == "quick" else 6):
+                a, b = rr.sample(group, 2)
+                if S.content_key(a) == S.content_key(b):
+                    continue
+                e = {k: v for k, v in b.items() if k not in ("prior",)}
+                e["prior"] = {k: v for k, v in a.items() if k not in ("prior", "name", "puzzle", "tag")}
+                e["tag"] = "%s/after:%s" % (b.get("tag", "?"), a.get("tag", "?"))
+                e["name"] = sp.name_of(e)
+                hist.append(e)
+        hist = hist[: (12 if tier == "quick" else 60)]
+        ds += hist
         per[sp.module] = len(ds)
         descs += ds
     if only:
@@ -183,7 +212,7 @@ def run(tier, only=None):
     tmo = 60 if tier == "quick" else 240
     ctx = mp.get_context("fork")
     results = []
-    with ctx.Pool(common.ncores(), maxtasksperchild=6) as pool:
+    with ctx.Pool(common.ncores(), maxtasksperchild=64) as pool:      # (each instance runs in its own forked child: query.isolated)
         for r in pool.imap_unordered(_worker, [(d, tmo) for d in descs]):
             results.append(r)
     query.absorb(rep, MOD, results, key_of, "solve_<puzzle>")
@@ -222,12 +251,16 @@ def run(tier, only=None):
                       "are compared with z3 on the rules (satisfiable iff, decided cells forced, undecided cells ambiguous).")
 
 
-def _replay_facts(d):
+def _replay_facts_here(d):
     try:
         r = decide(d, 60)
     except Exception:
         return True
     return bool(r.get("facts")) and r.get("facts") != "inconclusive"
+
+
+def _replay_facts(d):
+    return bool(query.fresh_call(MOD, "_replay_facts_here", d))
 
 
 def replay(payload, verbose=False):
